@@ -32,7 +32,8 @@ pub(crate) struct Key {
 
 pub(crate) fn key<C: SourceController>(s: &NtpSource<C>) -> Key {
     let now = tokio::time::Instant::now();
-    let (bb, bl, bn, bf) = crate::packet::v5::server_reference_id::verif_probe::gc::raw(&s.bloom_filter);
+    let (bb, bl, bn, bf) =
+        crate::packet::v5::server_reference_id::verif_probe::gc::raw(&s.bloom_filter);
     Key {
         version: format!("{:?}", s.protocol_version),
         last_poll: s.last_poll_interval.as_log(),
